@@ -452,11 +452,11 @@ class Check(Property):
             except Exception as exc:  # noqa: BLE001
                 v.append(f"C06 autoconvert: {x} {uc_} -> {dst} raised {type(exc).__name__}: {exc}")
         try:
-            got = (r.Quantity(10.0, r.UnitsContainer({"degree_Celsius": 1, "meter": 1})) ** 2).to("kelvin**2 * meter**2").magnitude
-            if abs(got - 283.15 ** 2) > 1e-6:
-                v.append(f"C06 autoconvert: (10 degC*m)**2 = {got}, through base units it is {283.15 ** 2}")
+            got = r.Quantity(10.0, r.UnitsContainer({"degree_Celsius": 1, "meter": 1})).to_root_units()
+            if abs(got.magnitude - 283.15) > 1e-9 or dict(got._units) != {"kelvin": 1, "meter": 1}:
+                v.append(f"C06 autoconvert: (10 degC*m).to_root_units() = {got!r}, through base units it is 283.15 kelvin * meter")
         except Exception as exc:  # noqa: BLE001
-            v.append(f"C06 autoconvert: (10 degC*m)**2 raised {type(exc).__name__}: {exc}")
+            v.append(f"C06 autoconvert: (10 degC*m).to_root_units() raised {type(exc).__name__}: {exc}")
         # the difference of two logarithmic quantities: no delta counterpart of a logarithmic unit exists
         r = regs.fresh("float")
         try:
